@@ -922,4 +922,32 @@ theorem factory_counter_on_copy_witness :
     fsServed (fsStop s 1 x) 2 x = true ∧ fsServed (fsStopCounterOnCopy s 1 x) 2 x = false := by decide
 
 
+/-! ## 7. the lists the informer loops run over name every requested entry exactly once -/
+
+theorem noRepeat_iff (l : List Nat) : noRepeat l = true ↔ l.Nodup := by
+  induction l with
+  | nil => simp [noRepeat]
+  | cons a t ih => simp [noRepeat, ih]
+
+/-- **C02.7 `config_names_each_once`** For every `matchNames` list — repeats anywhere, adjacent or
+not — `names()` / `namespaces()` (model `dedupNames`) hand each requested entry to the informer
+loops exactly once; this is the predicate the driver evaluates on `oracle uniq` lines, there on the
+lists the real `MonitorConfig.names()` / `namespaces()` returned. -/
+theorem config_names_each_once (l : List Nat) : uniqExact l (dedupNames l) = true := by
+  unfold uniqExact
+  simp only [Bool.and_eq_true, List.all_eq_true, List.contains_iff_mem, noRepeat_iff]
+  exact ⟨⟨dedupNames_nodup l, fun x hx => (mem_dedupNames l x).2 hx⟩, fun x hx => (mem_dedupNames l x).1 hx⟩
+
+theorem config_names_each_once_cfg (mc : MonCfg) :
+    uniqExact mc.names mc.namesEff = true ∧
+    (mc.nsSel = false → mc.nss.isEmpty = false →
+      mc.namespaces = (dedupNames mc.nss).map some ∧ uniqExact mc.nss (dedupNames mc.nss) = true) := by
+  refine ⟨config_names_each_once _, fun h1 h2 => ⟨?_, config_names_each_once _⟩⟩
+  simp [MonCfg.namespaces, h1, h2]
+
+/-- non-vacuity: a non-adjacent repeat; dropping only *consecutive* repeats is not enough -/
+example : dedupNames [1, 2, 1] = [1, 2] ∧ uniqExact [1, 2, 1] [1, 2] = true ∧
+    uniqExact [1, 2, 1] [1, 2, 1] = false ∧ uniqExact [1, 1, 2] [1, 2] = true ∧
+    uniqExact [1, 2] [1] = false ∧ uniqExact [1] [1, 3] = false := by decide
+
 end ShellOp.Snapshot.C02
